@@ -40,6 +40,7 @@ SubstrateOps(T) ==
               ifs \in {<<i, j>> : i \in TrunkIfs(T), j \in TrunkIfs(T) \cup {"stale/iface"}} \cup {<<>>} \cup {<<"stale/iface">>}}
     \cup {[op |-> "RemoveLink", name |-> n] : n \in {"l1"}}
     \cup {[op |-> "AddFacility", name |-> "f1", site |-> "S1", rp |-> <<>>]}
+    \cup {[op |-> "AddFacility", name |-> "f1", site |-> "S1", rp |-> <<>>, ifs |-> ifs] : ifs \in {<<"fa", "fb">>, <<"fa", "fa">>}}
     \cup {[op |-> "RemoveFacility", name |-> n] : n \in {"f1", "n1"}}
     \cup {[op |-> "AddSwitch", name |-> "sw1", site |-> "S1", nports |-> 2], [op |-> "RemoveSwitch", name |-> "sw1"],
           [op |-> "RemoveSwitch", name |-> "n1"]}
@@ -61,6 +62,9 @@ ExperimentOps(T) ==
     \cup {[op |-> "Disconnect", s |-> s, i |-> i] : s \in TopSvcs(T), i \in NodeSideIfs(T)}
     \cup (IF Profile = "full" THEN
             {[op |-> "AddFacility", name |-> "f1", site |-> s, rp |-> <<>>] : s \in {"S1"}}
+       \* the multi-interface form; a repeated or invalid interface name at the last position fails the whole call
+       \cup {[op |-> "AddFacility", name |-> "f1", site |-> "S1", rp |-> <<>>, ifs |-> ifs] :
+                 ifs \in {<<"fa", "fb">>, <<"fa", "fb", "fa">>, <<"fa", "!x">>}}
        \cup {[op |-> "RemoveFacility", name |-> n] : n \in {"f1", "n1"}}
        \cup {[op |-> "Peer", a |-> ab[1], b |-> ab[2]] : ab \in {x \in TopSvcs(T) \X TopSvcs(T) : x[1] # x[2]}}
        \cup {[op |-> "Unpeer", a |-> ab[1], b |-> ab[2]] : ab \in {x \in TopSvcs(T) \X TopSvcs(T) : x[1] # x[2]}}
@@ -109,6 +113,9 @@ SeedOps ==
                               [op |-> "AddService", name |-> "s2", nstype |-> "L2Bridge", site |-> "", rp |-> <<>>, ifs |-> <<"n1/c2/n1-c2-l2ovs/c2-p1">>],
                               [op |-> "Rename", p |-> "n1/c1/n1-c1-l2ovs/c1-p1", new |-> "data"],
                               [op |-> "Rename", p |-> "n1/c2/n1-c2-l2ovs/c2-p1", new |-> "data"] >>
+      \* a facility with three interfaces, none connected yet (which one gets connected is the explorer's choice)
+      [] Seed = "fac3"  -> << N("n1", "S1"), C("n1", "c1", "nic2"),
+                              [op |-> "AddFacility", name |-> "f1", site |-> "S1", rp |-> <<>>, ifs |-> <<"fa", "fb", "fc">>] >>
       \* a richer seed: sub-interface connected to a service, a facility, two peered services
       [] Seed = "rich"  -> << N("n1", "S1"), C("n1", "c1", "nic2"), N("n2", "S2"), C("n2", "c1", "nic2"),
                               [op |-> "AddSubInterface", i |-> "n1/c1/n1-c1-l2ovs/c1-p2", name |-> "sub1", vlan |-> "100"],
